@@ -359,6 +359,14 @@ def _(e):
     return "tt_dimscheck", U.tt_dimscheck, (e.N, None, np.array([0]), np.array([0])), {}, None, {}
 
 
+@row("tt_dimscheck:mode-past-the-last-one")
+def _(e):
+    from pyttb import pyttb_utils as U
+
+    dims = [int(x) for x in e.rng.permutation(e.N)[: int(e.rng.integers(0, e.N + 1))]] + [e.N + int(e.rng.integers(0, 3))]
+    return "tt_dimscheck", U.tt_dimscheck, (e.N, None, np.array(dims), None), {}, None, {"with_valid_modes": len(dims) > 1}
+
+
 @row("tt_dimscheck:too-many-multiplicands")
 def _(e):
     from pyttb import pyttb_utils as U
